@@ -130,7 +130,23 @@ fn classify(text: &str, got: &Result<Vec<E>, String>, want: &[E]) -> String {
 
 /// One rendering: parse the text with two back-ends and compare with the denotation.
 pub fn eval_rendering(ts: &[T], ch: &mut Ch, acc: &mut Acc) {
-    let r = render(ts, ch);
+    let mut r = render(ts, ch);
+    // last choice point: the stream ends without its final line break (not offered when a literal
+    // scalar is present, whose clipped tail depends on it)
+    fn has_literal(t: &T) -> bool {
+        match &t.n {
+            N::Sc(_, 3) => true,
+            N::Seq(v, _) => v.iter().any(has_literal),
+            N::Map(p, _) => p.iter().any(|(k, v)| has_literal(k) || has_literal(v)),
+            _ => false,
+        }
+    }
+    if ch.flag() {
+        if !r.text.ends_with('\n') || r.docs.iter().any(has_literal) {
+            return;
+        }
+        r.text.pop();
+    }
     acc.evals += 1;
     for b in [Backend::Str, Backend::Buf] {
         let got: Result<Vec<E>, String> = match observe(&r.text, b, Api::Iter) {
@@ -284,6 +300,59 @@ pub fn replay(case: &Value) -> Result<Acc, String> {
     Ok(acc)
 }
 
+/// Chains of `d` nested collections: `b` block levels (pattern bp) around `d - b` flow levels
+/// (pattern fp); every level carries a sibling so that indentation and separators matter.
+pub fn spine_trees(dmin: usize, dmax: usize) -> Vec<T> {
+    let sc = |t: &str| T::plain(N::Sc(t.into(), 0));
+    let mut out = vec![];
+    for d in dmin..=dmax {
+        for b in 0..=d {
+            for bp in 0..4usize {
+                if b == 0 && bp > 0 {
+                    continue;
+                }
+                for fp in 0..3usize {
+                    if b == d && fp > 0 {
+                        continue;
+                    }
+                    for leaf in 0..2 {
+                        // an omitted node cannot be an entry of a flow sequence
+                        let innermost_flow_seq = b < d && (fp == 0 || (fp == 2 && (d - 1 - b) % 2 == 0));
+                        if leaf == 1 && innermost_flow_seq {
+                            continue;
+                        }
+                        let mut t = if leaf == 0 { sc("a") } else { T::plain(N::Null) };
+                        for lvl in (0..d).rev() {
+                            let flow = lvl >= b;
+                            let kind = if flow {
+                                match fp {
+                                    0 => 0,
+                                    1 => 1,
+                                    _ => (lvl - b) % 2,
+                                }
+                            } else {
+                                match bp {
+                                    0 => 0,
+                                    1 => 1,
+                                    2 => lvl % 2,
+                                    _ => 2,
+                                }
+                            };
+                            t = match kind {
+                                0 => T::plain(N::Seq(vec![t, sc("b")], flow)),
+                                1 => T::plain(N::Map(vec![(sc("a"), t), (sc("b"), sc("b"))], flow)),
+                                _ => T::plain(N::Map(vec![(t, sc("b"))], flow)),
+                            };
+                        }
+                        out.push(t);
+                    }
+                }
+            }
+        }
+    }
+    out
+}
+
 pub fn bounds(tier: Tier) -> Vec<(usize, usize)> {
     // (max nodes, deviation budget)
     if let Ok(v) = std::env::var("VP_C03_BOUNDS") {
@@ -341,6 +410,19 @@ pub fn check(tier: Tier) -> i32 {
     transitions += acc.counters.get("choice_edges").copied().unwrap_or(0);
     rep.acc.merge(acc);
     rep.scope(&format!("flow-only trees of {fmin}..{fmax} nodes ({}) x <= {fd} deviations", ftrees.len()), n, done == ftrees.len() as u64);
+    // deep nesting chains ("spines"): block levels outside, flow levels inside
+    let (dmin, dmax) = if tier == Tier::Quick { (7usize, 11usize) } else { (7, 15) };
+    let strees = spine_trees(dmin, dmax);
+    let (acc, done) = par_blocks(strees.len() as u64, &budget, |b, acc| {
+        let (c, tr) = explore(1, &mut |ch: &mut Ch| eval_rendering(std::slice::from_ref(&strees[b as usize]), ch, acc));
+        acc.count("choice_vectors", c);
+        acc.count("choice_edges", tr);
+    });
+    let n = acc.evals;
+    states += acc.counters.get("choice_vectors").copied().unwrap_or(0);
+    transitions += acc.counters.get("choice_edges").copied().unwrap_or(0);
+    rep.acc.merge(acc);
+    rep.scope(&format!("nesting chains of depth {dmin}..{dmax}: block levels (sequence / mapping value / alternating / complex key) around flow levels (sequence / mapping / alternating), every split point, 2 leaves ({}) x <= 1 deviation", strees.len()), n, done == strees.len() as u64);
     match load_suite() {
         Err(e) => rep.acc.machinery_errors.push(e),
         Ok(cases) => {
